@@ -45,24 +45,8 @@ def norm(v):
     return [norm(x) for x in v]
 
 def parse_sx(s):
-    pos = 0
-    n = len(s)
-    stack = [[]]
-    i = 0
-    while i < n:
-        c = s[i]
-        if c == '(':
-            stack.append([]); i += 1
-        elif c == ')':
-            top = stack.pop(); stack[-1].append(top); i += 1
-        elif c == ' ':
-            i += 1
-        else:
-            j = i
-            while j < n and s[j] not in ' ()':
-                j += 1
-            stack[-1].append(int(s[i:j])); i = j
-    return stack[0][0]
+    """text of one s-expression of integers -> nested lists (through the C json parser)"""
+    return json.loads(s.replace('(', '[').replace(')', ']').replace(' ', ',').replace('[,', '[').replace(',]', ']'))
 
 def S(v):
     """decode a code-point list back to str (for messages)"""
@@ -197,20 +181,32 @@ class Model:
         return parse_sx(p.stdout.strip())
 
 _IMPL_FUNCS = None
+_ORACLE = None
 def _impl_worker(chunk):
+    """runs the implementation wrapper and (in the same worker) the property oracle on its output;
+    returns a list of (output, oracle_message_or_None)"""
     out = []
     for fn, arg in chunk:
         try:
-            out.append(_IMPL_FUNCS[fn](arg))
+            o = _IMPL_FUNCS[fn](arg)
         except BaseException as e:   # harness-level failure, reported as such
-            out.append(['HARNESS', repr(e), traceback.format_exc()[-800:]])
+            out.append((['HARNESS', repr(e), traceback.format_exc()[-800:]], None))
+            continue
+        msg = None
+        if _ORACLE is not None:
+            try:
+                msg = _ORACLE(fn, arg, o)
+            except Exception as e:
+                msg = 'oracle raised %r' % (e,)
+        out.append((o, msg))
     return out
 
-def run_impl(funcs, cases, procs=NPROC):
+def run_impl(funcs, cases, procs=NPROC, oracle=None):
     """funcs: {fn: callable(arg)->canonical result}.  fork-based pool so pybtex is the
-    working tree imported by this process."""
-    global _IMPL_FUNCS
+    working tree imported by this process.  Returns a list of (output, oracle message)."""
+    global _IMPL_FUNCS, _ORACLE
     _IMPL_FUNCS = funcs
+    _ORACLE = oracle
     if not cases:
         return []
     if len(cases) < 400 or procs <= 1:
@@ -538,8 +534,11 @@ def run_check(mod, tier, seed):
             ck.log('coqchk: %s' % ch)
             if not ch['clean']:
                 broken_obligations.append('coqchk -o on Props/%s did not come back clean: %s' % (pid, json.dumps(ch)[-600:]))
-        iouts = run_impl(implf, plain)
-        ck.log('impl done')
+        ipairs = run_impl(implf, plain, oracle=oracle)
+        iouts = [p[0] for p in ipairs]
+        omsgs = [p[1] for p in ipairs]
+        del ipairs
+        ck.log('impl + oracle done')
         mismatches = []
         oracle_fail = []
         distinct = set()
@@ -569,10 +568,7 @@ def run_check(mod, tier, seed):
                     except Exception:
                         pass
             if oracle:
-                try:
-                    msg = oracle(fn, arg, io)
-                except Exception as e:
-                    msg = 'oracle raised %r' % (e,)
+                msg = omsgs[idx]
                 if msg:
                     oracle_fail.append((idx, fn, arg, msg, io)); st['oracle_fail'] += 1
         ck.log('compared: %d mismatches, %d oracle failures, %d harness errors' % (len(mismatches), len(oracle_fail), len(harness_errors)))
@@ -665,10 +661,9 @@ def run_check(mod, tier, seed):
                 break
 
         # ---- broken obligations: search for a failing input through the oracle (already run above)
+        # (a broken obligation is always reported, also when some other violation already has a failing input)
         for b in broken_obligations:
-            anyfound = any(v.get('failing_input_found') for v in violations)
-            if not anyfound:
-                violations.append({'kind': 'obligation', 'what': b, 'failing_input_found': False})
+            violations.append({'kind': 'obligation', 'what': b, 'failing_input_found': False})
 
         # ---- known findings: replay the pinned input of each listed finding
         replay_known = getattr(mod, 'replay_known', None)
